@@ -2,7 +2,7 @@
 Spec: Link.tla / MC_Link.tla (descriptor chain with inter-block interfaces, replayed), LinkTrace.tla."""
 import random, math, warnings
 import numpy as np
-from ..core import deadline, import_repo, MachineryError
+from ..core import deadline, import_repo, MachineryError, protect
 from ..behav import parse_ev
 
 LEVEL = "model_checking"
@@ -35,12 +35,12 @@ def run(ctx):
         n = len(bits)
         gv(sps=sps, R=R, **({"N": n} if rnd.random() < 0.4 else {}))       # sometimes with the slot count of this very record in force
         Vout = Vpi
-        x = DAC(bits, 0.0, Vout, shape, **({"T": sps, "m": 2} if (shape == "gaussian" and rnd.random() < 0.5) else {}))   # explicit or default width
+        x = protect(DAC(protect(np.array(bits)), 0.0, Vout, shape, **({"T": sps, "m": 2} if (shape == "gaussian" and rnd.random() < 0.5) else {})))   # explicit or default width
         stages = [desc("DAC", x)]
         cw = np.full(n * sps, math.sqrt(Pw) * np.exp(0.7j))
-        carrier = optical_signal(cw if npol == 1 else np.array([cw, cw]))
+        carrier = protect(optical_signal(cw if npol == 1 else np.array([cw, cw])))
         bias = 0.0 if bias_on else -Vpi            # u + bias in {0, Vpi}: theta in {0, pi/2} ("on": bit 0 -> full power) or {-pi/2, 0}
-        o = MZM(carrier, x, bias=bias, Vpi=Vpi, loss_dB=loss, ER_dB=ER, pol=rnd.choice(["x", "y"]))
+        o = protect(MZM(carrier, x, bias=bias, Vpi=Vpi, loss_dB=loss, ER_dB=ER, pol=rnd.choice(["x", "y"])))
         stages.append(desc("MZM", o))
         slot_ps2 = (1e12 / R) ** 2
         if linear == "DM":
@@ -50,7 +50,7 @@ def run(ctx):
             L = rnd.uniform(1, 50)
             o = FIBER(o, L, alpha=0.2, beta_2=rnd.choice([-1, 1]) * 0.009 * slot_ps2 / L, gamma=0.0)
             stages.append(desc("FIBER", o))
-        y = PD(o, min(BWrel, 0.45 * sps) * R, r_, 300.0, RL, "ase-only", 0.0)      # receiver bandwidth >= 0.7 R and below Nyquist
+        y = protect(PD(protect(o), min(BWrel, 0.45 * sps) * R, r_, 300.0, RL, "ase-only", 0.0))      # receiver bandwidth >= 0.7 R and below Nyquist
         stages.append(desc("PD", y))
         s = SAMPLER(y, sps // 2)
         stages.append(desc("SAMPLER", s))
